@@ -26,7 +26,7 @@ func (p IP4) ID() int                 { return int(binary.BigEndian.Uint16(p[4:6
 func (p IP4) Flags() uint8            { return uint8(p[6]) & 0b11100000 } // first 3 bits
 func (p IP4) FlagDontFragment() bool  { return (uint8(p[6]) & 0b01000000) != 0 }
 func (p IP4) FlagMoreFragments() bool { return (uint8(p[6]) & 0b00100000) != 0 }
-func (p IP4) Fragment() uint16        { return ((uint16(p[6]) & 0b00011111) << 8) & uint16(p[7]) }
+func (p IP4) Fragment() uint16        { return ((uint16(p[6]) & 0b00011111) << 8) | uint16(p[7]) }
 func (p IP4) TTL() int                { return int(p[8]) }
 func (p IP4) Checksum() int           { return int(binary.BigEndian.Uint16(p[10:12])) }
 func (p IP4) Src() netip.Addr         { return netip.AddrFrom4(*((*[4]byte)(p[12:16]))) }
